@@ -28,6 +28,8 @@ DIR = "xknx.telegram.telegram:TelegramDirection"
 
 
 def run(chk: Check, repo: Repo) -> None:
+    from .common_rules import dispatch_iterates_a_snapshot
+    dispatch_iterates_a_snapshot(chk, repo, repo.func("xknx.core.telegram_queue", "TelegramQueue._run_telegram_received_cbs"), "telegram_received_cbs", "the telegram callbacks", "snapshot|telegram-callbacks")
     fi = repo.func(TQ, "TelegramQueue.Callback.is_within_filter")
     chk.unit(fi)
     cfg = CFG(fi.node)
